@@ -41,6 +41,7 @@ type LoopSpec struct {
 	Header  string
 	Invs    []*Clause
 	Decr    *Clause
+	After   []*Clause // lemmas asserted (then assumed) where the loop exits
 }
 
 type AtCall struct {
@@ -59,7 +60,15 @@ type SetClause struct {
 	Src   string
 }
 
+// CutSpec: lemmas proved (then assumed) just before a statement identified by its source text
+type CutSpec struct {
+	Text   string
+	Lemmas []*Clause
+	Line   int
+}
+
 type FuncSpec struct {
+	Cuts     []*CutSpec
 	Sets     []*SetClause // ghost assignments performed at return (definitional)
 	Key      string
 	Assumed  bool
@@ -117,7 +126,7 @@ func NewSpecs() *Specs {
 
 var trailingComment = regexp.MustCompile(`\s{2,}#.*$`)
 
-var kwRe = regexp.MustCompile(`^(requires|ensures|invariant|decreases|assert|modifies|loop|at-call|func|assumed|fun|axiom|define|opaque|stable|ghost|sort|pure|sets)\b(\[[^\]]*\])?\s*(.*)$`)
+var kwRe = regexp.MustCompile(`^(requires|ensures|invariant|decreases|assert|modifies|loop|at-call|func|assumed|fun|axiom|define|opaque|stable|ghost|sort|pure|sets|after|before|lemma)\b(\[[^\]]*\])?\s*(.*)$`)
 
 type rawItem struct {
 	kw, tags, rest string
@@ -160,6 +169,7 @@ func (s *Specs) LoadFile(path string, commentPrefix string) error {
 	var cur *FuncSpec
 	var curLoop *LoopSpec
 	var curAt *AtCall
+	var curCut *CutSpec
 	perr := func(it *rawItem, f string, a ...interface{}) error {
 		return fmt.Errorf("%s:%d: %s", path, it.line, fmt.Sprintf(f, a...))
 	}
@@ -255,6 +265,22 @@ func (s *Specs) LoadFile(path string, commentPrefix string) error {
 				s.Funcs[key] = cur
 			}
 			curLoop, curAt = nil, nil
+		case "before":
+			if cur == nil {
+				return perr(it, "before outside func")
+			}
+			curCut = &CutSpec{Text: strings.Trim(strings.TrimSpace(rest), `"`), Line: it.line}
+			cur.Cuts = append(cur.Cuts, curCut)
+			curLoop, curAt = nil, nil
+		case "lemma":
+			if cur == nil || curCut == nil {
+				return perr(it, "lemma outside before")
+			}
+			ex, err := ParseExpr(rest)
+			if err != nil {
+				return perr(it, "%v", err)
+			}
+			curCut.Lemmas = append(curCut.Lemmas, &Clause{Kind: "lemma", Tags: splitTags(it.tags), Src: rest, E: ex, File: path, Line: it.line})
 		case "pure":
 			if cur == nil {
 				return perr(it, "pure outside func")
@@ -377,7 +403,7 @@ func (s *Specs) LoadFile(path string, commentPrefix string) error {
 				}
 			}
 			cur.Modifies = append(cur.Modifies, mc)
-		case "requires", "ensures", "invariant", "decreases", "assert":
+		case "requires", "ensures", "invariant", "decreases", "assert", "after":
 			if cur == nil {
 				return perr(it, "%s outside func", it.kw)
 			}
@@ -396,6 +422,11 @@ func (s *Specs) LoadFile(path string, commentPrefix string) error {
 					return perr(it, "invariant outside loop")
 				}
 				curLoop.Invs = append(curLoop.Invs, cl)
+			case "after":
+				if curLoop == nil {
+					return perr(it, "after outside loop")
+				}
+				curLoop.After = append(curLoop.After, cl)
 			case "decreases":
 				if curLoop != nil {
 					curLoop.Decr = cl
